@@ -269,6 +269,19 @@ class Executor:
                 cell = self.field(v, variant, p[1], p[2])
                 cur_ty = p[2]
                 variant = None
+            elif p[0] == "index":
+                # variable index: supported when the index local holds a concrete value
+                iv = fr.locals.get(int(p[1][1:]))
+                iv = iv.v if iv is not None else None
+                if iv is None or not z3.is_bv_value(z3.simplify(iv)):
+                    raise Unsupported("slice index by a symbolic value")
+                v = cell.v
+                if v is None:
+                    v = cell.v = Obj(cur_ty)
+                if not isinstance(v, Obj) or "u8" not in cur_ty:
+                    raise Unsupported(f"index projection on {v!r} ({cur_ty})")
+                cell = self.field(v, "elem", z3.simplify(iv).as_long(), "u8")
+                cur_ty = "u8"
             elif p[0] == "constindex":
                 v = cell.v
                 if v is None:
@@ -432,6 +445,7 @@ class Executor:
                 head, body = text[:k], text[k + 3:-1].strip()
                 named = True
         ops = []
+        names = []
         if body is not None and body.strip():
             for p in split_top(body, ", "):
                 p = p.strip()
@@ -439,6 +453,7 @@ class Executor:
                     continue
                 if named:
                     kk = p.index(": ")
+                    names.append(p[:kk])
                     p = p[kk + 2:]
                 ops.append(self.operand(st, fr, parse_operand(p)))
         head_nogen = strip_generics(head)
@@ -453,6 +468,8 @@ class Executor:
         o = Obj(dest_ty)
         for i, v in enumerate(ops):
             o.fields[(None, i)] = Cell(v)
+        if names:
+            o.attrs["field_names"] = names
         return o
 
     def binop(self, st, op, a, b):
@@ -552,6 +569,8 @@ class Executor:
         if (head, meth) not in table:
             if head == "Poll" and meth == "map_err":
                 return self.poll_map_err(st, fr, dest, x, f, dest_ty, ret)
+            if (head, meth) == ("Option", "ok_or_else"):
+                return self.option_ok_or_else(st, fr, dest, x, f, dest_ty, ret)
             raise Inconclusive("combinator not modelled: " + key)
         hit, miss = table[(head, meth)]
         out = []
@@ -594,6 +613,27 @@ class Executor:
                         return out
                 raise Inconclusive(f"{key} with unmodelled function item {f.name}")
             self.call_closure(st, f, [inner], cell, ret, post=wrap)
+            out.append(st)
+        return out
+
+    def option_ok_or_else(self, st, fr, dest, x, f, dest_ty, ret):
+        from .contracts import payload
+        out = []
+        c_some = self.variant_is(st, x, "Some")
+        c_none = self.variant_is(st, x, "None")
+        if self.feasible(st, c_some):
+            s2 = st.clone()
+            s2.pc.append(c_some)
+            f2 = s2.frames[-1]
+            xx = self.reread_arg0(s2, f2)
+            self.write_place(s2, f2, dest, self.make_enum(dest_ty, "Ok", [payload(self, xx, "Some")]))
+            self.enter(s2, f2, ret)
+            out.append(s2)
+        if self.feasible(st, c_none):
+            st.pc.append(c_none)
+            cell, _ = self.resolve(st, fr, dest, for_write=True)
+            wrap = lambda ex, s, v: ex.make_enum(dest_ty, "Err", [v])
+            self.call_closure(st, f, [], cell, ret, post=wrap)
             out.append(st)
         return out
 
